@@ -419,10 +419,10 @@ func runC01(c *Ctx) {
 	// "inside its anchoring window" is the window predicate of C09 (from <= t <= until, default until = from + delta):
 	// its decision on all weak orderings, the wiring of the check into the apply functions and the parser's hand-off
 	// are part of this check as well
-	runC09(c)
+	c.apart(runC09)
 	// "systematically invalidated … every failure class": an operation whose signature, reveal value, protected header
 	// or delta hash is bad is refused (or degraded) — the acceptance conditions of C02 are refusal classes of this fold
-	runC02(c)
+	c.apart(runC02)
 	// a create / recover whose patch list fails half-way keeps the empty document: that is so only if applying patches
 	// does not write the document it was given (the model already holds it)
 	if ap := c.Method(pComposer, "DocumentComposer", "ApplyPatches"); ap != nil {
@@ -440,7 +440,7 @@ func runC01(c *Ctx) {
 	// … and what an applicable delta does to the document is the composer's per-action semantics: the whole of C10 (action
 	// tables, handler write-sets, the left fold over the list, the handlers' decision skeletons, replace-by-id) is part of
 	// "the resolved state is the fold of the history"
-	runC10(c)
+	c.apart(runC10)
 	// the fold refuses an operation whose request is ill-formed: the applier parses every operation in batch mode, and
 	// what the parser accepts there (well-formed multihashes, key and header rules, size limits) is the subject of C07
 	// (run as part of C02 above)
